@@ -23,29 +23,30 @@ theorem completeFailure_keeps_clock (e : Engine) (id : Nat) (k : String) :
   let h := completeFailure_same e id k
   ⟨h.timeouts, h.now, h.current⟩
 
-/-- the record chosen by `process_ack_timeouts` is one of the recorded ones -/
-theorem nextAckTimeout_mem (e : Engine) (x : Nat × Nat) (h : e.nextAckTimeout = some x) : x ∈ e.timeouts := by
-  unfold Engine.nextAckTimeout at h
-  have key : ∀ (l : List (Nat × Nat)) (init : Option (Nat × Nat)) (x : Nat × Nat),
-      l.foldl (fun best x => match best with | none => some x | some b => if x.2 < b.2 then some x else some b) init = some x →
-      x ∈ l ∨ init = some x := by
-    intro l
-    induction l with
-    | nil => intro init x h; right; simpa using h
-    | cons y ys ih =>
-      intro init x h
-      simp only [List.foldl] at h
-      rcases ih _ x h with h1 | h1
-      · left; exact List.mem_cons_of_mem _ h1
-      · cases init with
-        | none => simp at h1; left; rw [h1]; exact List.mem_cons_self ..
-        | some b =>
-          simp only at h1
-          split at h1
-          · simp at h1; left; rw [h1]; exact List.mem_cons_self ..
-          · right; exact h1
-  rcases key e.timeouts none x h with h1 | h1
-  · exact h1
+theorem foldl_min_mem (l : List (Nat × Nat)) (init : Option (Nat × Nat)) (x : Nat × Nat)
+    (h : l.foldl (fun best x => match best with | none => some x | some b => if x.2 < b.2 then some x else some b) init = some x) :
+    x ∈ l ∨ init = some x := by
+  induction l generalizing init with
+  | nil => right; simpa using h
+  | cons y ys ih =>
+    simp only [List.foldl] at h
+    rcases ih _ h with h1 | h1
+    · left; exact List.mem_cons_of_mem _ h1
+    · cases init with
+      | none => simp at h1; left; rw [h1]; exact List.mem_cons_self ..
+      | some b =>
+        simp only at h1
+        split at h1
+        · simp at h1; left; rw [h1]; exact List.mem_cons_self ..
+        · right; exact h1
+
+/-- the record chosen by `process_ack_timeouts` is a recorded one and never that of the operation being written -/
+theorem nextDueTimeout_mem (e : Engine) (x : Nat × Nat) (h : e.nextDueTimeout = some x) :
+    x ∈ e.timeouts ∧ e.current ≠ some x.1 := by
+  unfold Engine.nextDueTimeout at h
+  rcases foldl_min_mem _ none x h with h1 | h1
+  · have := List.mem_filter.mp h1
+    exact ⟨this.1, by simpa using this.2⟩
   · simp at h1
 
 /-- **Never earlier than T.**  Whatever else happens in a service call, a recorded timeout whose deadline has
@@ -55,14 +56,13 @@ theorem not_before_deadline : ∀ (fuel : Nat) (e : Engine) (x : Nat × Nat), x 
   | 0, e, x, hx, _ => by simpa [Engine.processAckTimeouts] using hx
   | fuel + 1, e, x, hx, hlate => by
     simp only [Engine.processAckTimeouts]
-    cases hn : e.nextAckTimeout with
+    cases hn : e.nextDueTimeout with
     | none => simpa using hx
     | some nd =>
       obtain ⟨id, deadline⟩ := nd
       simp only []
       split
       · rename_i hdue
-        simp only [Bool.and_eq_true, decide_eq_true_eq] at hdue
         have hk := completeFailure_keeps_clock { e with timeouts := e.timeouts.erase (id, deadline) } id "AckTimeout"
         have hne : x ≠ (id, deadline) := by
           intro heq; rw [heq] at hlate; simp only at hlate; omega
@@ -73,10 +73,39 @@ theorem not_before_deadline : ∀ (fuel : Nat) (e : Engine) (x : Nat × Nat), x 
         exact not_before_deadline fuel _ x hx' hl'
       · simpa using hx
 
-/-- **The operation still being written is not timed out**: the pass stops at it. -/
-theorem current_operation_deferred (fuel : Nat) (e : Engine) (id d : Nat) (hn : e.nextAckTimeout = some (id, d))
-    (hc : e.current = some id) : Engine.processAckTimeouts (fuel + 1) e = (e, .ok) := by
-  simp [Engine.processAckTimeouts, hn, hc]
+/-- **The operation still being written is not timed out**: its record survives the pass whatever its deadline
+    (it is applied by the first pass after the packet is complete), and it does not hold back the others. -/
+theorem current_operation_deferred : ∀ (fuel : Nat) (e : Engine) (x : Nat × Nat), x ∈ e.timeouts → e.current = some x.1 →
+    x ∈ (Engine.processAckTimeouts fuel e).1.timeouts ∧ (Engine.processAckTimeouts fuel e).1.current = e.current
+  | 0, e, x, hx, _ => by simp [Engine.processAckTimeouts]; exact hx
+  | fuel + 1, e, x, hx, hcur => by
+    simp only [Engine.processAckTimeouts]
+    cases hn : e.nextDueTimeout with
+    | none => exact ⟨by simpa using hx, rfl⟩
+    | some nd =>
+      obtain ⟨id, deadline⟩ := nd
+      simp only []
+      split
+      · have hmem := nextDueTimeout_mem e (id, deadline) hn
+        have hk := completeFailure_keeps_clock { e with timeouts := e.timeouts.erase (id, deadline) } id "AckTimeout"
+        have hne : x ≠ (id, deadline) := by
+          intro heq; rw [heq] at hcur; exact hmem.2 hcur
+        have hx' : x ∈ ({ e with timeouts := e.timeouts.erase (id, deadline) }.completeFailure id "AckTimeout").1.timeouts := by
+          rw [hk.1]; exact (List.mem_erase_of_ne hne).mpr hx
+        have hc' : ({ e with timeouts := e.timeouts.erase (id, deadline) }.completeFailure id "AckTimeout").1.current = some x.1 := by
+          rw [hk.2.2]; exact hcur
+        have ih := current_operation_deferred fuel _ x hx' hc'
+        exact ⟨ih.1, by rw [ih.2, hk.2.2]⟩
+      · exact ⟨by simpa using hx, rfl⟩
+
+/-- the pass stops only when the earliest record of the other operations is not yet due -/
+theorem pass_continues_while_due (fuel : Nat) (e : Engine) (id d : Nat) (hn : e.nextDueTimeout = some (id, d)) (hdue : d ≤ e.now) :
+    Engine.processAckTimeouts (fuel + 1) e =
+      (let e1 := { e with timeouts := e.timeouts.erase (id, d) }
+       let (e2, r) := e1.completeFailure id "AckTimeout"
+       let (e3, r3) := Engine.processAckTimeouts fuel e2
+       (e3, r.fold r3)) := by
+  simp [Engine.processAckTimeouts, hn, hdue]
 
 /-- **Never if the acknowledgement arrived first**: once an operation has completed it is no longer tracked,
     and a timeout record that outlives it fails nothing and reports nothing. -/
@@ -87,7 +116,7 @@ theorem stale_timeout_is_noop (e : Engine) (id : Nat) (k : String) (h : e.op? id
 /-- **A due timeout fails its operation with the ack-timeout error** (user operation, still tracked, not the
     one being written). -/
 theorem due_timeout_fails_operation (fuel : Nat) (e : Engine) (id d idx : Nat) (o : Op) (t : Option Nat)
-    (hn : e.nextAckTimeout = some (id, d)) (hdue : d ≤ e.now) (hc : e.current ≠ some id)
+    (hn : e.nextDueTimeout = some (id, d)) (hdue : d ≤ e.now)
     (ho : e.op? id = some o) (hu : o.user = some (idx, t)) (hnd : isDisconnect o.packet = false)
     (hss : o.slowStart = 0) :
     ∃ e1, ({ e with timeouts := e.timeouts.erase (id, d) } : Engine).completeFailure id "AckTimeout" = (e1, .ok) ∧
